@@ -49,6 +49,10 @@ CHECKS['C11'] = dict(cat='other',
     tech='CrossHair/z3: def/class header lines built from a symbolic identifier and spacing through the real find_def_loc/FuncScope/ClassScope (S); import statements and whole programs solver-enumerated (E)',
     text='(S) the identifier in a def / async def / class header is a solver variable (letters that collide with the header keywords), the reported position must be where the identifier was put; (E) nine import forms over colliding identifiers, and every binding of ~60 programs: text at the reported position is the identifier, lint/location/all_names agree.',
     note='Source.lines pre-filled from symbolic pieces, template AST node; symbolic-container transform; ASCII; real-file corpus outside.', ref='3/C11')
+CHECKS['C07'] = dict(cat='other',
+    tech='CrossHair/z3 over the real Project.norm_package/get_module/list_packages with a symbolic in-memory file system (solver variables decide which files exist), vs real importlib.util.resolve_name and a PathFinder model validated against real importlib',
+    text='Bounded symbolic execution: the number of leading dots, which directories are packages, which module/package/extension files exist in two source roots and the root order are solver variables; a path forks only on the os.path.exists calls actually made. Relative names resolve exactly as importlib.util.resolve_name (real function, same path); get_module picks the file the import system would load and raises ImportError exactly when nothing is found; sub-package listings equal what pkgutil can enumerate.',
+    note='file system stubbed in memory, sys.path not consulted, __import__ of extension modules faked; PathFinder/pkgutil model validated on materialised trees each run; outside: namespace packages, same-name module+package or source+extension in one directory, .pyc-only, zip, builtin/frozen.', ref='3/C07')
 NA = {}
 
 def main():
